@@ -70,6 +70,13 @@ class C09(Spec):
 
 
 def run(rep, tier, seed):
+    import glob, os
+    for f in glob.glob(C09.SAN_LOG + ".*"):      # sanitizer reports of earlier runs
+        try:
+            os.remove(f)
+        except OSError:
+            pass
+    os.makedirs(os.path.dirname(C09.SAN_LOG), exist_ok=True)
     return run_spec(C09(), rep, tier, seed)
 
 
